@@ -96,6 +96,39 @@ fn main() {
             report.merge(rep);
             report.extra("exhaustive", false);
         }
+        "seq-deep" => {
+            if let Some(case) = a.opt("case") {
+                let (name, cs) = case.rsplit_once(':').expect("case = item:seed");
+                let cs: u64 = cs.parse().unwrap();
+                let name = name.to_string();
+                let rep = common::run_big_stack(move || {
+                    let mut rep = Report::new();
+                    match name.as_str() {
+                        "AffItem" => seq::run_deep_case::<AffItem>(cs, &mut rep, true),
+                        "WordItem" => seq::run_deep_case::<WordItem>(cs, &mut rep, true),
+                        _ => panic!("unknown item"),
+                    }
+                    rep
+                });
+                report.merge(rep);
+                eng.finish(report);
+            }
+            let total = a.u64("cases", if thorough { 1600 } else { 96 });
+            let q = WorkQueue::new(total);
+            let rep = common::run_sharded(a.threads(), |_s, rep| {
+                rep.sample_cap = 0;
+                while let Some(idx) = q.take() {
+                    let cs = mix(&[seed, 0xDEE9, idx]);
+                    if idx % 2 == 0 {
+                        seq::run_deep_case::<WordItem>(cs, rep, false);
+                    } else {
+                        seq::run_deep_case::<AffItem>(cs, rep, false);
+                    }
+                }
+            });
+            report.merge(rep);
+            report.extra("exhaustive", false);
+        }
         "seq-exhaustive" => {
             if let Some(case) = a.opt("case") {
                 let parts: Vec<&str> = case.split(':').collect();
